@@ -36,6 +36,7 @@ func runC20(c *core.Ctx) core.Meta {
 	for _, l := range levels {
 		pkgs = append(pkgs, l.pkg)
 	}
+	pkgs = append(pkgs, "nvidia/tracereader")
 	c.Load(pkgs...)
 	c.BuildSSA()
 	prov := core.NewProv(c)
@@ -329,8 +330,268 @@ func runC20(c *core.Ctx) core.Meta {
 		}
 	}
 
+	// ---------------- R20.5 the trace-line parser partitions the token list ----------------
+	checkTokenPartition(c)
+
 	return core.Meta{Level: "other",
-		Explanation: "Structural clauses of the NVIDIA trace-driven pipeline decided on SSA of nvidia/{driver,gpu,sm,subcore} with one table row per hierarchy level: SEND-DISCIPLINE on dispatch and report sites, completion propagation (decrement → ==0 test → finished counter; unit returned to the free list with the decrement and by the ID in the message), zero-work completion at every load site, conservation at load and dispatch sites (head of pending list to head of free list, both popped, both tested non-empty).",
-		NotDecided:  "parse round-trip of serialised traces (value level); instruction counts as numbers; termination time",
+		Explanation: "Structural clauses of the NVIDIA trace-driven pipeline decided on SSA of nvidia/{driver,gpu,sm,subcore} with one table row per hierarchy level: SEND-DISCIPLINE on dispatch and report sites, completion propagation (decrement → ==0 test → finished counter; unit returned to the free list with the decrement and by the ID in the message), zero-work completion at every load site, conservation at load and dispatch sites (head of pending list to head of free list, both popped, both tested non-empty); the trace-line parser consumes every token of a line for at most one field (symbolic cursor intervals, linear in the register counts, pairwise disjoint; the trailing token excluded from every slice).",
+		NotDecided:  "parse round-trip of serialised traces beyond the cursor partition (number formats, field meanings); instruction counts as numbers; termination time",
 		Assumptions: commonAssumptions}
+}
+
+// ---- R20.5 -------------------------------------------------------------------------------
+
+// linForm is c0 + sum coef[sym]*sym over non-negative integer symbols.
+type linForm struct {
+	c    int64
+	coef map[string]int64
+	ok   bool
+}
+
+func (a linForm) add(b linForm, sign int64) linForm {
+	out := linForm{c: a.c + sign*b.c, coef: map[string]int64{}, ok: a.ok && b.ok}
+	for k, v := range a.coef {
+		out.coef[k] += v
+	}
+	for k, v := range b.coef {
+		out.coef[k] += sign * v
+	}
+	return out
+}
+
+// nonNeg: the form is >= 0 for all non-negative symbol values.
+func (a linForm) nonNeg() bool {
+	if !a.ok || a.c < 0 {
+		return false
+	}
+	for _, v := range a.coef {
+		if v < 0 {
+			return false
+		}
+	}
+	return true
+}
+
+func (a linForm) String() string {
+	if !a.ok {
+		return "?"
+	}
+	out := fmt.Sprint(a.c)
+	for _, k := range sortedKeys(a.coef) {
+		if a.coef[k] != 0 {
+			out += fmt.Sprintf("%+d*%s", a.coef[k], k)
+		}
+	}
+	return out
+}
+
+func checkTokenPartition(c *core.Ctx) {
+	const trPkg = "nvidia/tracereader"
+	st := c.Rule("R20.5", "the trace-line parser consumes each token of the line for at most one field: the index intervals read from the token list (single indices, loops over i < count, slices), written as linear forms in the register counts, are pairwise disjoint on every common path, and a function that reads the trailing token elems[len-1] excludes it from every slice it takes", 8)
+	lp := core.NewLocalProv(c)
+	for _, fname := range []string{"extractInst", "updateInstMemoryPart"} {
+		fn := c.MustFunc("R20.5", trPkg, fname)
+		if fn == nil {
+			continue
+		}
+		c.MarkAnalysed(fn)
+		// the token list: a []string parameter or the result of strings.Fields
+		isList := func(v ssa.Value) bool {
+			if p, ok := v.(*ssa.Parameter); ok {
+				return p.Type().String() == "[]string"
+			}
+			if call, ok := v.(*ssa.Call); ok {
+				if f := core.CalleeFunc(call); f != nil && f.FullName() == "strings.Fields" {
+					return true
+				}
+			}
+			return false
+		}
+		var lin func(v ssa.Value, depth int) linForm
+		loopBound := map[*ssa.Phi]linForm{}
+		lin = func(v ssa.Value, depth int) linForm {
+			bad := linForm{}
+			if depth > 12 {
+				return bad
+			}
+			if k, ok := core.ConstInt(v); ok {
+				return linForm{c: k, coef: map[string]int64{}, ok: true}
+			}
+			switch t := v.(type) {
+			case *ssa.Convert:
+				return lin(t.X, depth+1)
+			case *ssa.ChangeType:
+				return lin(t.X, depth+1)
+			case *ssa.BinOp:
+				switch t.Op {
+				case token.ADD:
+					return lin(t.X, depth+1).add(lin(t.Y, depth+1), 1)
+				case token.SUB:
+					return lin(t.X, depth+1).add(lin(t.Y, depth+1), -1)
+				}
+			case *ssa.UnOp:
+				if f := core.LoadedField(t); f != nil {
+					return linForm{coef: map[string]int64{f.Name(): 1}, ok: true}
+				}
+			case *ssa.Call:
+				if core.IsBuiltin(t, "len") && isList(t.Call.Args[0]) {
+					return linForm{coef: map[string]int64{"len": 1}, ok: true}
+				}
+			case *ssa.Phi:
+				// induction variable 0, +1 with header test i < B
+				if l := analyseLoopAny(t); l != nil {
+					b := lin(l, depth+1)
+					if b.ok {
+						loopBound[t] = b
+						return linForm{coef: map[string]int64{fmt.Sprintf("i%p", t): 1}, ok: true}
+					}
+				}
+			}
+			return bad
+		}
+		type cons struct {
+			lo, hi linForm // [lo, hi)
+			in     ssa.Instruction
+			what   string
+		}
+		var all []cons
+		readsTrailing := false
+		var slices []*ssa.Slice
+		expand := func(f linForm) (linForm, linForm) { // replace loop symbols by 0 and bound-1
+			lo, hi := linForm{c: f.c, coef: map[string]int64{}, ok: f.ok}, linForm{c: f.c, coef: map[string]int64{}, ok: f.ok}
+			for k, v := range f.coef {
+				isLoop := false
+				for phi, b := range loopBound {
+					if k == fmt.Sprintf("i%p", phi) {
+						isLoop = true
+						// lo: i = 0; hi: i = bound-1
+						scaled := linForm{c: (b.c - 1) * v, coef: map[string]int64{}, ok: b.ok}
+						for kk, vv := range b.coef {
+							scaled.coef[kk] = vv * v
+						}
+						hi = hi.add(scaled, 1)
+					}
+				}
+				if !isLoop {
+					lo.coef[k] += v
+					hi.coef[k] += v
+				}
+			}
+			return lo, hi
+		}
+		for _, b := range fn.Blocks {
+			for _, in := range b.Instrs {
+				switch t := in.(type) {
+				case *ssa.IndexAddr:
+					if !isList(t.X) {
+						continue
+					}
+					f := lin(t.Index, 0)
+					if !f.ok {
+						st.Sample("%s: index %s of the token list not linear in the counts; not modelled", fname, lp.Of(t.Index))
+						continue
+					}
+					lo, hi := expand(f)
+					one := linForm{c: 1, coef: map[string]int64{}, ok: true}
+					all = append(all, cons{lo, hi.add(one, 1), in, "elems[" + f.String() + "]"})
+					if f.coef["len"] == 1 && f.c == -1 && len(f.coef) == 1 {
+						readsTrailing = true
+					}
+				case *ssa.Slice:
+					if !isList(t.X) {
+						continue
+					}
+					slices = append(slices, t)
+					lo := linForm{coef: map[string]int64{}, ok: true}
+					if t.Low != nil {
+						lo = lin(t.Low, 0)
+					}
+					hi := linForm{coef: map[string]int64{"len": 1}, ok: true}
+					if t.High != nil {
+						hi = lin(t.High, 0)
+					}
+					if lo.ok && hi.ok {
+						all = append(all, cons{lo, hi, in, "elems[" + lo.String() + ":" + hi.String() + "]"})
+					}
+				}
+			}
+		}
+		// trailing-token exclusivity
+		if readsTrailing {
+			for _, sl := range slices {
+				st.Instances++
+				hi := linForm{coef: map[string]int64{"len": 1}, ok: true}
+				if sl.High != nil {
+					hi = lin(sl.High, 0)
+				}
+				// hi <= len-1  <=>  (len-1) - hi >= 0
+				lim := linForm{c: -1, coef: map[string]int64{"len": 1}, ok: true}
+				ok := lim.add(hi, -1).nonNeg()
+				st.Ob(ok)
+				st.Sample("%s: slice ends at %s, trailing token read separately: %v", fname, hi.String(), ok)
+				if !ok {
+					c.ReportAt("R20.5", fn, sl.Pos(), "slice-includes-trailing-token", fname+" reads the last token elems[len-1] as its own field and also takes a slice of the token list ending at "+hi.String()+": the trailing token is parsed twice (once as the trailing field, once as a list element)")
+				}
+			}
+		}
+		// pairwise disjointness on common paths
+		reach := func(a, b *ssa.BasicBlock) bool { return a == b || reaches(a, b) }
+		for i := 0; i < len(all); i++ {
+			for j := i + 1; j < len(all); j++ {
+				A, B := all[i], all[j]
+				if !reach(A.in.Block(), B.in.Block()) && !reach(B.in.Block(), A.in.Block()) {
+					continue // alternative interpretations on exclusive branches
+				}
+				if A.what == B.what {
+					continue // the same token re-read (e.g. in a loop)
+				}
+				d1 := B.lo.add(A.hi, -1) // B.lo - A.hi >= 0
+				d2 := A.lo.add(B.hi, -1)
+				if d1.nonNeg() || d2.nonNeg() {
+					st.Instances++
+					st.Ob(true)
+					continue
+				}
+				// both ranges are addressed from the same end of the list (both from the start: linear in the
+				// counts; or both relative to len): then they must be provably disjoint
+				fromEnd := func(f linForm) bool { return f.coef["len"] != 0 }
+				if fromEnd(A.lo) == fromEnd(B.lo) {
+					st.Instances++
+					st.Ob(false)
+					c.ReportAt("R20.5", fn, B.in.Pos(), "token-read-twice:"+A.what+"&"+B.what, fmt.Sprintf("%s reads %s and %s on one path and these index ranges are not disjoint for every count of destination / source registers: one token of the line can feed two fields", fname, A.what, B.what))
+				}
+			}
+		}
+	}
+}
+
+// analyseLoopAny: phi is an induction variable starting at 0 and stepping by 1 whose
+// header test is phi < B; returns B.
+func analyseLoopAny(phi *ssa.Phi) ssa.Value {
+	if len(phi.Edges) != 2 {
+		return nil
+	}
+	okInit, okStep := false, false
+	for _, e := range phi.Edges {
+		if k, isC := core.ConstInt(e); isC && k == 0 {
+			okInit = true
+		}
+		if bo, ok := e.(*ssa.BinOp); ok && bo.Op == token.ADD && bo.X == ssa.Value(phi) {
+			if k, isC := core.ConstInt(bo.Y); isC && k == 1 {
+				okStep = true
+			}
+		}
+	}
+	if !okInit || !okStep {
+		return nil
+	}
+	iff, ok := phi.Block().Instrs[len(phi.Block().Instrs)-1].(*ssa.If)
+	if !ok {
+		return nil
+	}
+	bo, ok := iff.Cond.(*ssa.BinOp)
+	if !ok || bo.Op != token.LSS || core.StripConv(bo.X) != ssa.Value(phi) {
+		return nil
+	}
+	return bo.Y
 }
